@@ -222,6 +222,95 @@ def scenario(cfg, n_resume, seed2, second_gen=False):
         shutil.rmtree(tmp, ignore_errors=True)
 
 
+def interrupt_scenario(cfg, at_frac, kind, save_every):
+    """The run is interrupted from inside the user's likelihood (KeyboardInterrupt = Ctrl-C / SIGINT, or an ordinary exception)
+    in the middle of an iteration.  Whatever checkpoint files exist afterwards - regular ones or ones written on the way out -
+    must each restore into a fresh sampler and resume with contiguous iteration numbers, a continuing call counter, a
+    non-decreasing temperature, the restored prefix untouched and the usual postconditions."""
+    out = dict(bad=[], files=0, resumed=0, interrupted=0)
+    tmp = tmpdir()
+    try:
+        c = runs.full(dict(cfg, mode="scalar"))
+        # dry run to learn how many likelihood evaluations the run takes
+        np.random.seed(c["seed"])
+        s0, t, like0, pt = runs.build(c)
+        s0.run(n_total=c["n_total"], progress=False)
+        total = int(like0.n_points)
+        at = max(c["N"] + 1, int(at_frac * total))
+        np.random.seed(c["seed"])
+        s, t, like, pt = _build(c, tmp)
+        state = {"n": 0, "fired": False}
+
+        def trip(x):
+            state["n"] += 1
+            if state["n"] == at and not state["fired"]:
+                state["fired"] = True
+                raise (KeyboardInterrupt() if kind == "sigint" else RuntimeError("user model failed"))
+        like.delay = trip
+        try:
+            s.run(n_total=c["n_total"], progress=False, save_every=save_every)
+        except (KeyboardInterrupt, RuntimeError):
+            out["interrupted"] = 1
+        like.delay = None
+        files = sorted(f for f in os.listdir(tmp) if f.endswith(".state"))
+        stray = [f for f in os.listdir(tmp) if not f.endswith(".state")]
+        if stray:
+            out["bad"].append(("stray-temp-file", f"files left beside checkpoints after an interrupted run: {stray[:3]}"))
+        out["files"] = len(files)
+        for f in files:
+            pth = os.path.join(tmp, f)
+            s2 = _build(c, tmp)[0]
+            try:
+                s2.load_state(pth)
+            except Exception as e:
+                out["bad"].append(("load-raises", f"[{kind}] load_state({f}) raised {type(e).__name__}: {e}"))
+                continue
+            pre = runs.history(s2)
+            hl = len(pre["beta"])
+            calls0 = int(s2.state.get_current("calls") or 0)
+            import multiprocessing as mp
+            from tvf import idblob
+            idblob.SHARED = mp.Value("q", 0)
+            s3 = _build(c, tmp)[0]
+            np.random.seed(c["seed"] + 99)
+            try:
+                with attach.Hooks() as hk:
+                    attach.iteration_budget(hk, 400)
+                    s3.run(n_total=c["n_total"], progress=False, resume_state_path=pth)
+            except Exception as e:
+                out["bad"].append(("resume-raises", f"[{kind}] run(resume_state_path={f}) raised {type(e).__name__}: {e}"))
+                continue
+            out["resumed"] += 1
+            H3 = runs.history(s3)
+            T3 = len(H3["beta"])
+            iters = [int(i) for i in H3["iter"]]
+            if iters != list(range(1, T3 + 1)):
+                out["bad"].append(("resume-iteration-numbering", f"[{kind}, save_every={save_every}] {f} (written by a run interrupted at evaluation {at} of {total}): iteration numbers "
+                                   f"after resume {iters[max(0, hl - 2):hl + 3]} (history of {hl} iterations in the file, its current iter {s2.state.get_current('iter')})"))
+            for key in ("u", "logl", "beta", "logz"):
+                if digest(H3[key][:hl]) != digest(pre[key][:hl]):
+                    out["bad"].append(("resume-prefix-changed", f"[{kind}] {f}: history['{key}'][:{hl}] of the resumed run differs from what the file restores"))
+                    break
+            calls = [int(x) for x in H3["calls"]]
+            if any(b < a for a, b in zip(calls, calls[1:])):
+                out["bad"].append(("resume-call-count", f"[{kind}] {f}: call counter decreases {calls[max(0, hl - 2):hl + 2]}"))
+            seen3 = int(idblob.SHARED.value)
+            if T3 > hl and seen3 != calls[-1] - calls0:
+                out["bad"].append(("resume-call-count", f"[{kind}] {f}: calls grew by {calls[-1] - calls0} after resume but the likelihood saw {seen3} points"))
+            betas = [float(b) for b in H3["beta"]]
+            if any(b < a for a, b in zip(betas, betas[1:])):
+                out["bad"].append(("resume-beta-decreases", f"[{kind}] {f}: beta decreases after resume"))
+            _, _, lz, ess = mis_ref(H3["logl"], H3["beta"], H3["logz"], 1.0)
+            if 1 - betas[-1] >= 1e-4 or float(ess) < c["n_total"] * (1 - 1e-9):
+                out["bad"].append(("resume-postcondition", f"[{kind}] {f}: resumed run ended at beta={betas[-1]}, ESS={float(ess):.1f}"))
+        return out
+    except Exception as e:
+        out["bad"].append(("interrupt-scenario-raises", f"{type(e).__name__}: {e}\n{fmt_exc()[-400:]}"))
+        return out
+    finally:
+        shutil.rmtree(tmp, ignore_errors=True)
+
+
 def used_writer_scenario(cfg, variant, seed2):
     """The WRITER is a sampler object that has already run, written checkpoints and then had another history loaded (an earlier
     checkpoint of its own, or a checkpoint of another run).  Every checkpoint it writes afterwards, loaded into a fresh
@@ -544,6 +633,25 @@ def run():
         ck.event("... restored into a fresh sampler and compared", val["restored"])
         for key, what in val["bad"]:
             ck.violation(key, what, kw)
+    # runs interrupted from inside the likelihood in the middle of an iteration
+    it_ = []
+    for j in range(ck.pick(6, 36)):
+        it_.append(("tvf.checks.c08:interrupt_scenario", dict(cfg=dict(target=["gauss2", "bimodal"][j % 2], kernel=["tpcn", "rwm"][j % 2], clustering=bool(j % 2), N=32, n_total=96,
+                                                                     seed=ck.subseed("int", j) % 10 ** 6),
+                                                            at_frac=[0.35, 0.5, 0.65, 0.8, 0.2, 0.9][j % 6], kind=["sigint", "sigint", "error"][j % 3], save_every=[1, 2, 3][j % 3]), None))
+    for i, st, val in farm.run(it_, timeout=900, progress="C08-interrupt"):
+        kw = it_[i][1]
+        if st == "timeout":
+            ck.inconc(f"interrupt scenario {kw}: watchdog")
+            continue
+        if st != "ok":
+            ck.violation("scenario-crashed", f"{kw}: {st} {str(val)[-500:]}", kw)
+            continue
+        ck.case(dict(interrupt=kw), nontrivial=val["interrupted"] > 0 and val["resumed"] > 0)
+        ck.event("runs interrupted from inside the likelihood in the middle of an iteration", val["interrupted"])
+        ck.event("checkpoint files found after an interrupted run, each restored and resumed", val["resumed"])
+        for key, what in val["bad"]:
+            ck.violation(key, what, kw)
     # crash points
     ctasks = []
     maxp = ck.pick(40, 260)
@@ -601,7 +709,7 @@ def run():
             for key, what in val["bad"]:
                 ck.violation(key, what, dict(engine="strace", syscall=sc))
     ck.require_events("checkpoints restored into a fresh sampler and compared", "resumed runs that executed further iterations",
-                      "... restored into a fresh sampler and compared",
+                      "... restored into a fresh sampler and compared", "checkpoint files found after an interrupted run, each restored and resumed",
                       "kill points at which the child really died")
     return ck.finish(
         rule="configurations {vec/scalar/blobs, tpcn/rwm, clustering, cluster_every, pool-like object, integer pool, volume mode, "
